@@ -41,6 +41,8 @@ type Op struct {
 	Q    string   `json:"q,omitempty"`    // deleteWhere: field value (query is <fkfield> = "<Q>")
 
 	Fail bool `json:"fail,omitempty"` // preCommit: the action returns an error
+
+	Nested bool `json:"nested,omitempty"` // issued inside a nested Db.Update(ctx, ...) on the context already bound to the transaction
 }
 
 func (o Op) String() string {
